@@ -62,7 +62,7 @@ Proof.
     - unfold S. rewrite parent_of_kids by assumption. rewrite Z.eqb_refl. reflexivity.
     - cbn [t_id S]. unfold S. cbn [t_id]. congruence.
     - eapply plug_notin_cids; eauto. }
-  unfold to_outgroup. rewrite HP.
+  rewrite C07Ops.to_outgroup_false. unfold to_outgroup_old. rewrite HP.
   assert (HF : find_node p (plug c S) = Some S) by (apply (find_node_plug c S N)).
   assert (HR := rot_plug c S N). cbn [t_id S] in HR. unfold S in HR at 2. cbn [t_id] in HR.
   rewrite (model_reseed (plug c S) r p ub false false S (reroot c S) HF (or_intror eq_refl) HR).
